@@ -428,10 +428,10 @@ theorem pinv_doKill (s : Sys) (self : Cid) (beh : Nat) (cur : Env) (poison : Boo
     rw [e]
     exact after _ h2.1 h2.2
 
-theorem pinv_onSupervise (s : Sys) (self : Cid) (chain : List (Cid × List Cid))
+theorem pinv_onSuperviseDecide (s : Sys) (self : Cid) (chain : List (Cid × List Cid))
     (hst : (s.ctx self).zombie = true ∨ (s.ctx self).state ≠ .killed)
-    (hi : PauseInv none s) : PauseInv none (onSupervise s self chain) := by
-  unfold onSupervise
+    (hi : PauseInv none s) : PauseInv none (onSuperviseDecide s self chain) := by
+  unfold onSuperviseDecide
   simp only
   have h0 : SameP s (if (s.ctx self).strat = 0 then s else upd s self (fun x => { x with decIdx := x.decIdx + 1 })) := by
     split
@@ -467,6 +467,14 @@ theorem pinv_onSupervise (s : Sys) (self : Cid) (chain : List (Cid × List Cid))
          | apply sp_tell
          | apply sp_say)
        done)
+
+theorem pinv_onSupervise (s : Sys) (self : Cid) (chain : List (Cid × List Cid))
+    (hst : (s.ctx self).zombie = true ∨ (s.ctx self).state ≠ .killed)
+    (hi : PauseInv none s) : PauseInv none (onSupervise s self chain) := by
+  unfold onSupervise
+  split
+  · exact pinv_onSuperviseDecide _ _ _ hst hi
+  · exact pinv_sameP (sameP_tell _ _ _ _ _) hi
 
 end Vivid.ActorSys
 
